@@ -1,5 +1,6 @@
 import Pearl.Proofs.CancelLemmas
 import Pearl.Proofs.CancelRefine
+import Pearl.Proofs.CancelProduct
 import Pearl.Props.C05
 import Pearl.Props.C06
 import Pearl.Props.C11
@@ -8,7 +9,7 @@ C14 "Cancellation safety": what a dropped future leaves behind.
 
 Model: Pearl/Model/Cancel.lean (operations as items: await points with the closure handed to
 `spawn_blocking`, and the synchronous code between them; `cancelAfter k` = the future is dropped while
-suspended at await number `k`).  Lemmas: Pearl/Proofs/CancelLemmas.lean.
+suspended at await number `k`).  Lemmas: Pearl/Proofs/CancelLemmas.lean, CancelRefine.lean, CancelProduct.lean.
 
 Views of a state `s : CStore`: `s.toStore` — the L2 store of THIS session (what the in-memory indexes
 know; every query of Pearl/Model/Store.lean is a function of it); `s.regen` — the L2 store after a restart
@@ -709,6 +710,419 @@ example : ¬ (runSteps c3 [.dump, .write w1.entry] (bA.fileWrite c3 w2.entry)).A
   rw [h.2]; simp [writesOf, hf]
 
 
+/-! ## `delete_in_closed` through `FuturesUnordered`: the product of the per-blob cancel states
+
+`Storage::delete_in_closed` (src/storage/core.rs) collects `b.delete(..)` of EVERY closed blob into a
+`FuturesUnordered` and awaits the fold: all of them are polled, so when the storage-level future is dropped several
+of them can be suspended, each at its own await, each with its own closure running in `spawn_blocking`; all those
+closures finish.  `deleteSegments` takes the closed blobs one after the other.  Here: a CUT VECTOR `cuts : Nat → Nat`
+gives, for the closed blob in slot `i`, the number of segments its own future has completed;
+`cancelDeleteProduct c a cuts s0` cuts every blob's future (`blobDeleteItems` of that blob) at its own point, on the
+state `delS2` that the sequential part before `delete_in_closed` leaves.  Lemmas: Pearl/Proofs/CancelProduct.lean. -/
+
+/-- (1) `cancel_delete_product_states`.  For EVERY cut vector: nothing but the closed blobs is touched, and for
+    every closed blob `b` (slot `i`) the product state holds in slot `i` exactly what the blob's OWN future, dropped
+    at `cuts i` and running ALONE on `delS2`, leaves there; that future touches no other slot; so the blob is in one
+    of the three states of `cancel_blob_delete`, whatever the cuts of the other blobs are: files and indexes of
+    different blobs do not interact. -/
+theorem cancel_delete_product_states (c : Cfg) (a : DArgs) (s0 : CStore) (cuts : Nat → Nat) :
+    let s2 := delS2 c a s0
+    let t := cancelDeleteProduct c a cuts s0
+    (t.active = s2.active ∧ t.nextId = s2.nextId ∧ t.allowDup = s2.allowDup ∧ t.stray = s2.stray ∧
+      t.slots.length = s2.slots.length ∧ ∀ i : Nat, s2.slots[i]? = some none → t.slots[i]? = some none) ∧
+    ∀ (i : Nat) (b : CBlob), s2.slots[i]? = some (some b) →
+      t.slots[i]? = (cancelAfter (cuts i) (blobDeleteItems c (CStore.onSlot i) a true b) s2).slots[i]? ∧
+      (∀ j : Nat, j ≠ i →
+        (cancelAfter (cuts i) (blobDeleteItems c (CStore.onSlot i) a true b) s2).slots[j]? = s2.slots[j]?) ∧
+      ∃ tb, t.slots[i]? = some (some tb) ∧
+        (tb = b ∨
+         (needMarker a true b = true ∧ c.detached (entryLen c a.entry) = true ∧
+           tb = (loadedB b).fileWrite c a.entry) ∨
+         (needMarker a true b = true ∧ tb = ((loadedB b).fileWrite c a.entry).pushWritten c a.entry)) := by
+  intro s2 t
+  obtain ⟨h1, h2, h3, h4, h5, h6⟩ := product_shape c a cuts s0
+  refine ⟨⟨h3, h4, h5, h6, h1, h2⟩, ?_⟩
+  intro i b hb
+  obtain ⟨p1, p2, p3⟩ := product_slot c a cuts s0 i b hb
+  refine ⟨p1, p2, _, p3, ?_⟩
+  rcases cutB_state c a b _ (cutOf_valid c a true b (cuts i)) with h | h | ⟨hn, h⟩
+  · exact Or.inl h
+  · exact Or.inr (Or.inl h)
+  · refine Or.inr (Or.inr ⟨hn, ?_⟩)
+    rw [h, delB_eq, hn]
+    rfl
+
+/-- ... and the product is the FULL product: choose for every closed blob any of the states possible on it
+    (`Cut.untouched`; `Cut.orphan` if the key is live in the blob and the write closure is detached; `Cut.done` if
+    the key is live in the blob) — some cut vector produces exactly this combination. -/
+theorem cancel_delete_product_independent (c : Cfg) (a : DArgs) (s0 : CStore) (kinds : Nat → Cut)
+    (hv : ∀ (i : Nat) (b : CBlob), (delS2 c a s0).slots[i]? = some (some b) → (kinds i).Valid c a true b) :
+    ∃ cuts, ∀ (i : Nat) (b : CBlob), (delS2 c a s0).slots[i]? = some (some b) →
+      (cancelDeleteProduct c a cuts s0).slots[i]? = some (some (cutB c a b (kinds i) b)) := by
+  refine ⟨cutsFor (delS2 c a s0) kinds, ?_⟩
+  intro i b hb
+  rw [product_reaches c a kinds s0 hv]
+  unfold prodState
+  rw [mapSlots_slot, hb]
+  rfl
+
+/-- the product state is not an artefact of the order in which the definition takes the blobs: let every closed
+    blob's future perform its actions up to its own cut (synchronous code of the completed segments and the closures
+    handed to `spawn_blocking`, the last of them finishing detached), in ANY interleaved order of the actions of the
+    different futures (`Interleaving`): the resulting state is `cancelDeleteProduct` -/
+theorem cancel_delete_product_interleaving (c : Cfg) (a : DArgs) (s0 : CStore) (cuts : Nat → Nat)
+    (l : List (CStore → CStore))
+    (h : Interleaving ((closedWithSlots (delS1 a s0)).map
+      (fun p => effects (cuts p.1) (blobDeleteItems c (CStore.onSlot p.1) a true p.2))) l) :
+    runActs l (delS2 c a s0) = cancelDeleteProduct c a cuts s0 :=
+  interleaving_product c a cuts _ (closedWithSlots_nodup _) l h _
+
+/-- the blobs whose marker the dropped delete wrote AND indexed (slot numbers) -/
+def markedSet (c : Cfg) (a : DArgs) (s0 : CStore) (cuts : Nat → Nat) : Nat → Bool :=
+  doneSet (kindAt c a (delS2 c a s0) cuts)
+
+/-- the blobs whose marker reached the blob file (slot numbers) -/
+def reachedSet (c : Cfg) (a : DArgs) (s0 : CStore) (cuts : Nat → Nat) : Nat → Bool :=
+  fileSet (kindAt c a (delS2 c a s0) cuts)
+
+/-- `markedSet ⊆ reachedSet ⊆` the targets of the delete (closed blobs in whose index the key is live); without a
+    detached write closure (multi-thread runtime, marker of at most 81 920 bytes) the two sets are equal -/
+theorem marked_sub_reached_sub_targets (c : Cfg) (a : DArgs) (s0 : CStore) (cuts : Nat → Nat) :
+    (∀ i, markedSet c a s0 cuts i = true → reachedSet c a s0 cuts i = true) ∧
+    (∀ (i : Nat) (b : CBlob), (delS2 c a s0).slots[i]? = some (some b) → reachedSet c a s0 cuts i = true →
+      needMarker a true b = true) ∧
+    (∀ i : Nat, (∀ b, (delS2 c a s0).slots[i]? ≠ some (some b)) → reachedSet c a s0 cuts i = false) ∧
+    (c.detached (entryLen c a.entry) = false → ∀ (i : Nat) (b : CBlob),
+      (delS2 c a s0).slots[i]? = some (some b) → reachedSet c a s0 cuts i = markedSet c a s0 cuts i) := by
+  refine ⟨fun i h => doneSet_sub_fileSet _ i h, ?_, ?_, ?_⟩
+  · intro i b hb h
+    have := fileSet_sub_target c a _ _ (kindAt_valid c a (delS2 c a s0) cuts) i b hb h
+    unfold isTarget at this
+    rw [hb] at this
+    exact this
+  · intro i hi
+    unfold reachedSet fileSet kindAt
+    cases hs : (delS2 c a s0).slots[i]? with
+    | none => simp
+    | some o =>
+      cases o with
+      | none => simp
+      | some b => exact absurd hs (hi b)
+  · intro hd i b hb
+    exact fileSet_eq_doneSet c a _ _ (kindAt_valid c a (delS2 c a s0) cuts) hd i b hb
+
+/-- (2) the C14 guarantee for the concurrent `delete_in_closed`.  In THIS session the product state is — up to
+    where indexes reside (`forgetS`; an orphan marker leaves the index of its blob loaded), hence for every query
+    (`QEq`) — the SEQUENTIAL delete restricted to the subset `markedSet` of its target blobs
+    (`deleteClosedOn a M`: `Store.blobDelete` on the closed blobs in the slots of `M`, nothing on the others; it is
+    the L2 view of `delClosedOn c a M`, the completed `Blob::delete` on exactly those blobs).  PER BLOB the delete
+    took effect entirely or not at all: a blob outside `markedSet` has the records it had, a blob inside is
+    `Store.blobDelete` of itself.  A mix (marker in blob A, none in blob B) is possible — EVERY subset is reached
+    (`cancel_delete_any_subset`) — and this is what the oracle accepts ("a dropped delete may have marked any
+    subset of its targets"). -/
+theorem cancel_delete_product_subset (c : Cfg) (a : DArgs) (s0 : CStore) (cuts : Nat → Nat) :
+    let s2 := delS2 c a s0
+    let t := cancelDeleteProduct c a cuts s0
+    let M := markedSet c a s0 cuts
+    forgetS t.toStore = forgetS (deleteClosedOn a M s2.toStore) ∧
+    QEq t.toStore (deleteClosedOn a M s2.toStore) ∧
+    deleteClosedOn a M s2.toStore = (delClosedOn c a M s2).toStore ∧
+    (∀ (i : Nat) (b : CBlob), s2.slots[i]? = some (some b) → M i = true → needMarker a true b = true) ∧
+    ∀ (i : Nat) (b : CBlob), s2.slots[i]? = some (some b) → ∃ tb, t.slots[i]? = some (some tb) ∧
+      ((M i = false ∧ forgetB tb.toBlob = forgetB b.toBlob) ∨
+       (M i = true ∧ tb.toBlob = (Store.blobDelete b.toBlob a.k a.ts a.m true).1)) := by
+  intro s2 t M
+  have hv := kindAt_valid c a s2 cuts
+  have h1 : forgetS t.toStore = forgetS (deleteClosedOn a M s2.toStore) := by
+    show forgetS (cancelDeleteProduct c a cuts s0).toStore = _
+    rw [product_eq, toStore_prodState_subset c a _ _ hv, toStore_delClosedOn]
+    rfl
+  refine ⟨h1, qeq_of_forget h1, (toStore_delClosedOn c a M s2).symm, ?_, ?_⟩
+  · intro i b hb hM
+    exact (marked_sub_reached_sub_targets c a s0 cuts).2.1 i b hb
+      ((marked_sub_reached_sub_targets c a s0 cuts).1 i hM)
+  · intro i b hb
+    refine ⟨_, (product_slot c a cuts s0 i b hb).2.2, ?_⟩
+    have hk : kindAt c a s2 cuts i = cutOf c a true b (cuts i) := by
+      unfold kindAt; rw [hb]
+    rcases toBlob_cutB_cases c a b _ (cutOf_valid c a true b (cuts i)) with ⟨hne, h⟩ | ⟨he, h⟩
+    · left
+      refine ⟨?_, h⟩
+      show doneSet (kindAt c a s2 cuts) i = false
+      unfold doneSet
+      rw [hk]
+      simp [hne]
+    · right
+      refine ⟨?_, h⟩
+      show doneSet (kindAt c a s2 cuts) i = true
+      unfold doneSet
+      rw [hk, he]
+      rfl
+
+/-- the two ends of the subset order: the empty subset is the state before `delete_in_closed`, the full subset is
+    the completed delete — `Store.delete` -/
+theorem subset_delete_ends (c : Cfg) (a : DArgs) (s0 : CStore) :
+    delClosedOn c a (fun _ => false) (delS2 c a s0) = delS2 c a s0 ∧
+    delClosedOn c a (fun _ => true) (delS2 c a s0) = runItems (deleteSegments c a s0) s0 ∧
+    deleteClosedOn a (fun _ => true) (delS2 c a s0).toStore = (s0.toStore.delete a.k a.ts a.m a.oip).1 := by
+  refine ⟨delClosedOn_none c a _, delClosedOn_all c a s0, ?_⟩
+  rw [← toStore_delClosedOn c a, delClosedOn_all, delete_refines]
+
+/-- EVERY subset `M` is reached: the sequential delete restricted to `M` is itself a product state (cut the
+    futures of the blobs of `M` after their last await, do not poll the others) -/
+theorem cancel_delete_any_subset (c : Cfg) (a : DArgs) (s0 : CStore) (M : Nat → Bool) :
+    cancelDeleteProduct c a (fun i => if M i then 3 else 0) s0 = delClosedOn c a M (delS2 c a s0) :=
+  (delClosedOn_is_product c a M s0).symm
+
+/-- (3) the later start, and the invariant.  `StoreInv` holds in every product state.  A start that regenerates
+    the indexes from the blob files (`regen`) finds the storage in which EXACTLY the blobs whose closure reached the
+    file (`reachedSet`) carry the marker (`markOn`): the same storage as after the sequential delete restricted to
+    that subset.  When no blob has an index file (`NoIdxFiles`) this is what reopening every blob by
+    `Blob::from_file` (`restartBlobs`) gives, and `StoreInv` holds after it. -/
+theorem cancel_delete_product_later_start (c : Cfg) (a : DArgs) (s0 : CStore) (cuts : Nat → Nat)
+    (hinv : StoreInv c s0) (hm : (serMeta a.entry.1.mt).length < 2 ^ 64) :
+    let s2 := delS2 c a s0
+    let t := cancelDeleteProduct c a cuts s0
+    let F := reachedSet c a s0 cuts
+    StoreInv c s2 ∧ StoreInv c t ∧
+    t.regen = markOn a F s2.regen ∧
+    t.regen = (delClosedOn c a F s2).regen ∧
+    (∀ lazy, t.regen.restart lazy = (delClosedOn c a F s2).regen.restart lazy) ∧
+    (NoIdxFiles s2 →
+      (∀ b, (t.active = some b ∨ some b ∈ t.slots) → ∀ x ∈ b.frecs, (serMeta x.1.mt).length < 2 ^ 64) →
+      (t.restartBlobs c).toStore = markOn a F s2.regen ∧ StoreInv c (t.restartBlobs c)) := by
+  intro s2 t F
+  have hv := kindAt_valid c a s2 cuts
+  have hinv2 : StoreInv c s2 := delS2_inv a s0 hinv hm
+  have hinvt : StoreInv c t := cancelDeleteProduct_inv a cuts s0 hinv hm
+  have ht : t = prodState c a (kindAt c a s2 cuts) s2 := product_eq c a cuts s0
+  have h1 : t.regen = markOn a F s2.regen := by rw [ht]; exact regen_prodState_markOn c a _ s2
+  have h2 : t.regen = (delClosedOn c a F s2).regen := by rw [ht]; exact regen_prodState_subset c a _ s2 hv
+  refine ⟨hinv2, hinvt, h1, h2, fun lazy => by rw [h2], ?_⟩
+  intro hn hmt
+  have hnt : NoIdxFiles t := by rw [ht]; exact hn.prodState
+  exact ⟨by rw [toStore_restartBlobs c t hnt, h1], hinvt.restartBlobs hnt hmt⟩
+
+/-- (3'), per blob and WITH index files: the blob file of a blob whose closure reached the file has grown, so an
+    index file dumped before the delete is not accepted by the next start; the index is regenerated and holds the
+    marker — whether or not the dropped future had indexed it (only a dump AFTER the orphan marker hides it:
+    `orphan_hidden_by_dump`) -/
+theorem cancel_delete_product_blob_restart (c : Cfg) (a : DArgs) (s0 : CStore) (cuts : Nat → Nat)
+    (hinv : StoreInv c s0) (hm : (serMeta a.entry.1.mt).length < 2 ^ 64)
+    (i : Nat) (b : CBlob) (hb : (delS2 c a s0).slots[i]? = some (some b))
+    (hF : reachedSet c a s0 cuts i = true)
+    (hif : ∀ es bs, b.idxFile = some (es, bs) → bs ≤ b.file.bytes.length) :
+    ∃ tb, (cancelDeleteProduct c a cuts s0).slots[i]? = some (some tb) ∧ ¬ tb.Accepts ∧
+      (tb.restart c).toBlob.recs = b.frecs.map (·.1) ++ [a.entry.1] := by
+  have hk : kindAt c a (delS2 c a s0) cuts i = cutOf c a true b (cuts i) := by
+    unfold kindAt; rw [hb]
+  have hne : cutOf c a true b (cuts i) ≠ .untouched := by
+    unfold reachedSet fileSet at hF
+    rw [hk] at hF
+    simpa using hF
+  have hbi : BlobInv c b := (delS2_inv a s0 hinv hm).closed b (List.mem_of_getElem? hb)
+  obtain ⟨h1, _, h3⟩ := cut_restart_regenerates c a b _ hne hbi.size hif
+  exact ⟨_, (product_slot c a cuts s0 i b hb).2.2, h1, h3⟩
+
+/-! ### (4) the sequential model is the special case of staircase cut vectors -/
+
+/-- the states of the cancelled `Storage::delete` with the concurrent `delete_in_closed`: a cancellation in the
+    (sequential) part before it, or a product state -/
+def ConcDeleteState (c : Cfg) (a : DArgs) (s0 t : CStore) : Prop :=
+  (t = s0 ∨ (needCreate a s0 = true ∧ (t = sFile s0 ∨ t = sHdr s0)) ∨ t = delS1 a s0 ∨
+   (∃ b, (delS1 a s0).active = some b ∧ BlobDeleteState c CStore.onActive a a.oip b (delS1 a s0) t)) ∨
+  ∃ cuts : Nat → Nat, t = cancelDeleteProduct c a cuts s0
+
+/-- every cancellation point of the SEQUENTIAL model is a state of the concurrent one, with a staircase cut vector
+    (`staircase j k`: the blobs in the slots before `j` completed, the blob in slot `j` cut at `k`, the later ones
+    not polled) -/
+theorem sequential_states_are_staircases (c : Cfg) (a : DArgs) (s0 : CStore) (k : Nat) :
+    let t := cancelAfter k (deleteSegments c a s0) s0
+    (t = s0 ∨ (needCreate a s0 = true ∧ (t = sFile s0 ∨ t = sHdr s0)) ∨ t = delS1 a s0 ∨
+     (∃ b, (delS1 a s0).active = some b ∧ BlobDeleteState c CStore.onActive a a.oip b (delS1 a s0) t)) ∨
+    t = cancelDeleteProduct c a (fun _ => 0) s0 ∨
+    ∃ j, ∃ hj : j < (closedWithSlots (delS1 a s0)).length, ∃ k',
+      t = cancelDeleteProduct c a (staircase ((closedWithSlots (delS1 a s0))[j]).1 k') s0 := by
+  intro t
+  have h0 : cancelDeleteProduct c a (fun _ => 0) s0 = delS2 c a s0 := product_zero c a _ _ _ (fun _ _ => rfl)
+  rcases delete_cancel_head c a s0 t ⟨k, rfl⟩ with (h | h | h | h | h) | h
+  · exact Or.inl (Or.inl h)
+  · exact Or.inl (Or.inr (Or.inl h))
+  · exact Or.inl (Or.inr (Or.inr (Or.inl h)))
+  · exact Or.inl (Or.inr (Or.inr (Or.inr h)))
+  · exact Or.inr (Or.inl (by rw [h0]; exact h))
+  · exact Or.inr (closed_cancel_is_staircase c a s0 t h)
+
+theorem sequential_sub_concurrent (c : Cfg) (a : DArgs) (s0 : CStore) (k : Nat) :
+    ConcDeleteState c a s0 (cancelAfter k (deleteSegments c a s0) s0) := by
+  rcases sequential_states_are_staircases c a s0 k with h | h | ⟨j, hj, k', h⟩
+  · exact Or.inl h
+  · exact Or.inr ⟨_, h⟩
+  · exact Or.inr ⟨_, h⟩
+
+/-- the old theorem `cancel_delete_states` is a corollary: a sequential cancel state is a product state at a
+    staircase (`sequential_states_are_staircases`), the product state at a staircase is the blob's own cancelled
+    future on the state where the earlier blobs completed (`staircase_product`), and that is one of the three states
+    of `cancel_blob_delete` -/
+theorem cancel_delete_states_from_product (c : Cfg) (a : DArgs) (s0 : CStore) (k : Nat) :
+    let t := cancelAfter k (deleteSegments c a s0) s0
+    t = s0 ∨ (needCreate a s0 = true ∧ (t = sFile s0 ∨ t = sHdr s0)) ∨ t = delS1 a s0 ∨
+    (∃ b, (delS1 a s0).active = some b ∧ BlobDeleteState c CStore.onActive a a.oip b (delS1 a s0) t) ∨
+    t = delS2 c a s0 ∨
+    (∃ j, ∃ hj : j < (closedWithSlots (delS1 a s0)).length,
+      BlobDeleteState c (CStore.onSlot ((closedWithSlots (delS1 a s0))[j]).1) a true
+        ((closedWithSlots (delS1 a s0))[j]).2
+        (runItems ((delClosedItems c a (delS1 a s0)).take j).flatten (delS2 c a s0)) t) := by
+  intro t
+  rcases sequential_states_are_staircases c a s0 k with (h | h | h | h) | h | ⟨j, hj, k', h⟩
+  · exact Or.inl h
+  · exact Or.inr (Or.inl h)
+  · exact Or.inr (Or.inr (Or.inl h))
+  · exact Or.inr (Or.inr (Or.inr (Or.inl h)))
+  · refine Or.inr (Or.inr (Or.inr (Or.inr (Or.inl ?_))))
+    rw [show t = _ from h]
+    exact product_zero c a _ _ _ (fun _ _ => rfl)
+  · refine Or.inr (Or.inr (Or.inr (Or.inr (Or.inr ⟨j, hj, ?_⟩))))
+    rw [show t = _ from h, staircase_product c a s0 j hj k']
+    exact blobDelete_cancelStates _ _ _ _ _ _ _ ⟨k', rfl⟩
+
+/-- every state of the concurrent model keeps the invariant (`no_reserved_gap`, `parses_after_restart` for it), and
+    a later write / delete on it succeeds -/
+theorem conc_delete_keeps_inv (c : Cfg) (a : DArgs) (s0 t : CStore) (hinv : StoreInv c s0)
+    (hm : (serMeta a.entry.1.mt).length < 2 ^ 64) (ht : ConcDeleteState c a s0 t) : StoreInv c t := by
+  rcases ht with (rfl | ⟨_, rfl | rfl⟩ | rfl | ⟨b, _, hb⟩) | ⟨cuts, rfl⟩
+  · exact hinv
+  · exact hinv.sFile
+  · exact hinv.sHdr
+  · exact delS1_inv a s0 hinv
+  · exact blobDeleteState_inv onActive_sel onActive_id a a.oip b _ _ (delS1_inv a s0 hinv) hm hb
+  · exact cancelDeleteProduct_inv a cuts s0 hinv hm
+
+theorem later_ops_after_conc_delete (c : Cfg) (a a2 : DArgs) (w : WArgs) (s0 t : CStore)
+    (hinv : StoreInv c s0) (hm : (serMeta a.entry.1.mt).length < 2 ^ 64)
+    (hm2 : (serMeta a2.entry.1.mt).length < 2 ^ 64) (hmw : (serMeta w.entry.1.mt).length < 2 ^ 64)
+    (ht : ConcDeleteState c a s0 t) :
+    ((runItems (deleteSegments c a2 t) t).toStore = (t.toStore.delete a2.k a2.ts a2.m a2.oip).1 ∧
+      StoreInv c (runItems (deleteSegments c a2 t) t)) ∧
+    ((runItems (writeSegments c w t) t).toStore = t.toStore.write w.k w.ts w.m w.d ∧
+      StoreInv c (runItems (writeSegments c w t) t)) :=
+  let hi := conc_delete_keeps_inv c a s0 t hinv hm ht
+  ⟨later_delete_succeeds c a2 t hi hm2,
+    (later_write_succeeds c w t hi hmw).1, (later_write_succeeds c w t hi hmw).2.1⟩
+
+
+/-! ### witnesses: three closed blobs, key 1 live in all of them (current-thread runtime: closures are detached) -/
+
+def w3 : WArgs := { k := 1, ts := 8, m := none, d := ⟨1, 0⟩, bytes := [9] }
+
+/-- duplicates allowed: key 1 written into blob 0, blob 1 and blob 2, each closed; no active blob -/
+def sThree : CStore :=
+  let s0 : CStore := { allowDup := true }
+  let sA := closeA (runItems (writeSegments c3 w1 s0) s0)
+  let sB := closeA (runItems (writeSegments c3 w2 sA) sA)
+  closeA (runItems (writeSegments c3 w3 sB) sB)
+
+/-- blob 0 dropped at the await of its write closure (the closure finishes: orphan marker), blob 1 not polled
+    beyond its first await, blob 2 completed -/
+def cutsW (i : Nat) : Nat := if i = 0 then 1 else if i = 1 then 0 else 2
+
+theorem closeA_keeps_inv (c : Cfg) (s : CStore) (hA : StoreInv c s) : StoreInv c (closeA s) := by
+  refine ⟨?_, ?_, hA.stray⟩
+  · intro b' hb'; cases hb'
+  · intro b' hb'
+    unfold closeA at hb'
+    simp only [List.mem_append, List.mem_singleton] at hb'
+    rcases hb' with hb' | hb'
+    · exact hA.closed b' hb'
+    · exact hA.active b' hb'.symm
+
+theorem sThree_inv : StoreInv c3 sThree := by
+  have h0 : StoreInv c3 ({ allowDup := true } : CStore) := storeInv_noBlobs c3 _ rfl rfl rfl
+  have hA := closeA_keeps_inv c3 _ (write_cancel_inv c3 w1 _ _ h0 (by decide) (cancelStates_run _ _))
+  have hB := closeA_keeps_inv c3 _ (write_cancel_inv c3 w2 _ _ hA (by decide) (cancelStates_run _ _))
+  exact closeA_keeps_inv c3 _ (write_cancel_inv c3 w3 _ _ hB (by decide) (cancelStates_run _ _))
+
+set_option maxRecDepth 1000000 in
+/-- NON-VACUITY, and the concurrent model is strictly larger than the sequential one: on `sThree` every closed
+    blob is a target; the cut vector `cutsW` leaves blob 0 with an orphan marker, blob 1 untouched, blob 2 marked:
+    in this session the blobs hold 1, 1, 2 records (`markedSet` = {2}), after a regenerating start 2, 1, 2
+    (`reachedSet` = {0, 2}); NO cancellation point of the sequential `deleteSegments` gives 1, 1, 2 (its states are
+    1,1,1 / 2,1,1 / 2,2,1 / 2,2,2); the completed delete gives 2, 2, 2. -/
+theorem cancel_delete_product_witness :
+    (closedWithSlots sThree).map (·.1) = [0, 1, 2] ∧
+    (∀ p ∈ closedWithSlots sThree, needMarker del1 true p.2 = true) ∧
+    (List.range 3).map (kindAt c3 del1 (delS2 c3 del1 sThree) cutsW) = [.orphan, .untouched, .done] ∧
+    (List.range 3).map (markedSet c3 del1 sThree cutsW) = [false, false, true] ∧
+    (List.range 3).map (reachedSet c3 del1 sThree cutsW) = [true, false, true] ∧
+    sThree.toStore.recordsCountDetailed = [1, 1, 1] ∧
+    (cancelDeleteProduct c3 del1 cutsW sThree).toStore.recordsCountDetailed = [1, 1, 2] ∧
+    (cancelDeleteProduct c3 del1 cutsW sThree).regen.recordsCountDetailed = [2, 1, 2] ∧
+    (runItems (deleteSegments c3 del1 sThree) sThree).toStore.recordsCountDetailed = [2, 2, 2] ∧
+    (∀ k, (cancelAfter k (deleteSegments c3 del1 sThree) sThree).toStore.recordsCountDetailed ≠ [1, 1, 2]) := by
+  refine ⟨by decide, by decide, by decide, by decide, by decide, by decide, by decide, by decide, by decide, ?_⟩
+  intro k
+  rcases Nat.lt_or_ge k 9 with h | h
+  · have : ∀ k < 9, (cancelAfter k (deleteSegments c3 del1 sThree) sThree).toStore.recordsCountDetailed ≠ [1, 1, 2] := by
+      decide
+    exact this k h
+  · have hw : awaits (deleteSegments c3 del1 sThree) = 8 := by decide
+    rw [cancelAfter_ge _ k _ (by rw [hw]; omega)]
+    decide
+
+-- the theorems on the witness
+example := cancel_delete_product_states c3 del1 sThree cutsW
+example : QEq (cancelDeleteProduct c3 del1 cutsW sThree).toStore
+    (deleteClosedOn del1 (markedSet c3 del1 sThree cutsW) (delS2 c3 del1 sThree).toStore) :=
+  (cancel_delete_product_subset c3 del1 sThree cutsW).2.1
+example : StoreInv c3 (cancelDeleteProduct c3 del1 cutsW sThree) ∧
+    (cancelDeleteProduct c3 del1 cutsW sThree).regen =
+      markOn del1 (reachedSet c3 del1 sThree cutsW) (delS2 c3 del1 sThree).regen :=
+  let h := cancel_delete_product_later_start c3 del1 sThree cutsW sThree_inv (by decide)
+  ⟨h.2.1, h.2.2.1⟩
+set_option maxRecDepth 1000000 in
+-- no blob of `sThree` has an index file: reopening every blob gives the regenerated view
+example : NoIdxFiles (delS2 c3 del1 sThree) ∧
+    ((cancelDeleteProduct c3 del1 cutsW sThree).restartBlobs c3).toStore.recordsCountDetailed = [2, 1, 2] := by
+  have ha : (delS2 c3 del1 sThree).active = none := by decide
+  have hs : ∀ o ∈ (delS2 c3 del1 sThree).slots, (o.map (·.idxFile)).getD none = none := by decide
+  exact ⟨⟨fun b hb => (by rw [ha] at hb; cases hb), fun b hb => hs (some b) hb⟩, by decide⟩
+-- every combination is possible here (all three blobs are targets, closures are detached): e.g. all orphans
+example : ∃ cuts, ∀ (i : Nat) (b : CBlob), (delS2 c3 del1 sThree).slots[i]? = some (some b) →
+    (cancelDeleteProduct c3 del1 cuts sThree).slots[i]? = some (some (cutB c3 del1 b .orphan b)) :=
+  cancel_delete_product_independent c3 del1 sThree (fun _ => .orphan) (by
+    intro i b hb
+    have hmem : (i, b) ∈ closedWithSlots sThree := by
+      unfold closedWithSlots
+      rw [List.mem_filterMap]
+      exact ⟨(some b, i), List.mk_mem_zipIdx_iff_getElem?.mpr hb, rfl⟩
+    exact ⟨cancel_delete_product_witness.2.1 (i, b) hmem, rfl⟩)
+-- an interleaving of the six actions of the three futures (2, 1 and 3 of them): blob 2, 0, 2, 1, 0, 2
+set_option maxRecDepth 100000 in
+example : ∃ l, l.length = 6 ∧ runActs l (delS2 c3 del1 sThree) = cancelDeleteProduct c3 del1 cutsW sThree := by
+  have hI : ∃ l, Interleaving ((closedWithSlots (delS1 del1 sThree)).map
+      (fun p => effects (cutsW p.1) (blobDeleteItems c3 (CStore.onSlot p.1) del1 true p.2))) l ∧ l.length = 6 := by
+    refine ⟨_, Interleaving.step 2 _ _ rfl (Interleaving.step 0 _ _ rfl (Interleaving.step 2 _ _ rfl
+      (Interleaving.step 1 _ _ rfl (Interleaving.step 0 _ _ rfl (Interleaving.step 2 _ _ rfl
+        (Interleaving.done ?_)))))), rfl⟩
+    intro L hL
+    rcases List.mem_cons.mp hL with rfl | hL
+    · rfl
+    rcases List.mem_cons.mp hL with rfl | hL
+    · rfl
+    rcases List.mem_cons.mp hL with rfl | hL
+    · rfl
+    cases hL
+  obtain ⟨l, hl, hlen⟩ := hI
+  exact ⟨l, hlen, cancel_delete_product_interleaving c3 del1 sThree cutsW l hl⟩
+-- the staircases: the sequential cancellation point 5 (blob 0 done, blob 1 at the await of its write closure)
+set_option maxRecDepth 1000000 in
+example : (cancelAfter 5 (deleteSegments c3 del1 sThree) sThree).toStore.recordsCountDetailed = [2, 1, 1] ∧
+    (cancelAfter 5 (deleteSegments c3 del1 sThree) sThree).regen.recordsCountDetailed = [2, 2, 1] ∧
+    (cancelDeleteProduct c3 del1 (staircase 1 1) sThree).toStore.recordsCountDetailed = [2, 1, 1] ∧
+    (cancelDeleteProduct c3 del1 (staircase 1 1) sThree).regen.recordsCountDetailed = [2, 2, 1] := by
+  decide
+
+
 end Pearl.C14
 
 /-
@@ -728,13 +1142,17 @@ Statements that are FALSE of the model and are kept as refutation + `_partial` v
     id is used up). True for every blob that belongs to the storage: `parses_after_restart`.
   * "a cancelled delete takes effect entirely or not at all": false across blobs —
     `cancel_delete_not_atomic`. True blob by blob, with the same orphan exception: `cancel_blob_delete`,
-    `blob_delete_views`.
+    `blob_delete_views`; for the concurrent `delete_in_closed`: `cancel_delete_product_subset` (any subset of the
+    targets may be marked).
 
-NOT MODELLED: `delete_in_closed` drives the closed blobs' futures through `FuturesUnordered`; several of
-them can be suspended (each with its own detached closure running) when the future is dropped. The
-model takes the closed blobs one after the other; the concurrent reality is the product of the per-blob
-states of `cancel_blob_delete` (each blob's file and index are touched only by its own future), which is a
-superset of the sequential states of `cancel_delete_states`.
+MODELLED SINCE (was "NOT MODELLED"): `delete_in_closed` drives the closed blobs' futures through `FuturesUnordered`;
+several of them can be suspended (each with its own detached closure running) when the future is dropped.
+`deleteSegments` still takes the closed blobs one after the other; the concurrent reality is the PRODUCT of the
+per-blob states of `cancel_blob_delete`: `cancelDeleteProduct c a cuts s0` (Pearl/Proofs/CancelProduct.lean; section
+"`delete_in_closed` through `FuturesUnordered`" above), `cuts i` = number of segments the future of the closed blob in
+slot `i` has completed, every detached closure finishes.  It is a strict superset of the sequential states of
+`cancel_delete_states` (`sequential_sub_concurrent`, `cancel_delete_product_witness`).  The part of `Storage::delete`
+before `delete_in_closed` (`delete_in_active` is awaited first) stays sequential: `ConcDeleteState`.
 
 PROVED SINCE (Pearl/Proofs/CancelRefine.lean; headline theorems in the sections "operations that are NOT cancelled
 refine the L2 operations" and "the orphan record through further sessions" above)
@@ -756,8 +1174,40 @@ refine the L2 operations" and "the orphan record through further sessions" above
     it indexes the orphan), `restart_keeps_inv` (`CBlob.restart` = `Blob::from_file` agrees with
     `CBlob.restartRecs` and keeps `BlobInv2`).
 
+PROVED SINCE (Pearl/Proofs/CancelProduct.lean; headline theorems in the section "`delete_in_closed` through
+`FuturesUnordered`" above) — former item 2, the product-state version of `cancel_delete_states`:
+  * (1) `cancel_delete_product_states`: for EVERY cut vector, slot `i` of the product state is slot `i` of what the
+    blob's own future, dropped at `cuts i` and running alone, leaves; that future touches no other slot; the blob is in
+    one of the three states of `cancel_blob_delete`.  `cancel_delete_product_independent`: every combination of
+    per-blob states that are possible blob by blob is produced by some cut vector (the product is the full product).
+    `cancel_delete_product_interleaving`: ANY interleaving of the individual actions (synchronous code, closures) of
+    the futures, each up to its own cut, computes the product state (`Interleaving`, `effects`; `product_perm` for the
+    order of whole blobs) — the fold order in the definition of `cancelDeleteProduct` is immaterial.
+  * (2) `cancel_delete_product_subset`: in this session the product state is, up to index residence (`forgetS`) and
+    hence for every query (`QEq`), the SEQUENTIAL delete restricted to the subset `markedSet` of its targets
+    (`deleteClosedOn` at L2 = the view of `delClosedOn`); per blob entirely-or-not-at-all; `markedSet ⊆ reachedSet ⊆
+    targets`, equal without a detached closure (`marked_sub_reached_sub_targets`); every subset is reached
+    (`cancel_delete_any_subset`); the empty / full subsets are the state before `delete_in_closed` / `Store.delete`
+    (`subset_delete_ends`).  This is the oracle's "a dropped delete may have marked any subset of its targets; the
+    rest may still land until the next start" (Pearl/Oracle.lean `onStates`, `.delete .. cancelled`).
+  * (3) `cancel_delete_product_later_start`: `StoreInv` in every product state; a start that regenerates the indexes
+    finds exactly the blobs of `reachedSet` (closure reached the file) marked = the sequential delete restricted to
+    that subset; with no index files `restartBlobs` (`Blob::from_file` on every blob) gives that store and keeps
+    `StoreInv`.  `cancel_delete_product_blob_restart`: per blob WITH an index file dumped before the delete — the file
+    has grown, the index file is rejected, the regenerated index holds the marker.  `conc_delete_keeps_inv`,
+    `later_ops_after_conc_delete`: every state of the concurrent model keeps `StoreInv`; a later write / delete is
+    `Store.write` / `Store.delete`.
+  * (4) `sequential_states_are_staircases`, `sequential_sub_concurrent`, `cancel_delete_states_from_product`: the
+    sequential cancellation points are the product states at staircase cut vectors (`staircase j k`), and the old
+    `cancel_delete_states` follows from the product theorems (`staircase_product`).
+  * non-vacuity: `cancel_delete_product_witness` (three closed blobs, key live in all; orphan / untouched / done;
+    1,1,2 records in this session, 2,1,2 after a regenerating start; not a sequential state) and the examples after it.
+  What the product model still abstracts: cut vectors are indexed by SLOT number (`cutsOfIds` turns a vector indexed by
+  blob id into one; `product_congr`: only the values at slots holding a closed blob matter); the closures of different
+  blobs are atomic actions (a closure is one `pwrite` sequence on its own file — C11 covers I/O errors inside it, none
+  occur here); `FuturesUnordered`'s polling order is not modelled — it cannot matter (`cancel_delete_product_interleaving`).
+
 NOT YET PROVED
-  2. The product-state version of `cancel_delete_states` for `FuturesUnordered` (see NOT MODELLED).
   4. `close_active` / `restore_active` as segment lists with their await points (`dump` of the closed blob runs
      in `spawn_blocking`): not modelled, hence no cancellation statement for them.
   5. The multi-session statements are per blob (`CBlob.restart`); a whole-storage restart of `CStore` (blobs
